@@ -228,6 +228,50 @@ func checkC20(c CaseC20, info *Info) *Failure {
 	if l, e := x2j.XmlLeafPath(doc); e != nil || !reflect.DeepEqual(strSet(l), strSet(core.LeafPaths())) {
 		return mism("x2j.XmlLeafPath", strSet(l), strSet(core.LeafPaths()))
 	}
+	// every call decodes the document afresh: neither what the caller did to an earlier result nor a decoder option
+	// that changed since an earlier call with the same bytes may show
+	{
+		v1, _ := x2j.XmlValuesForPath(doc, dpath)
+		v2, _ := x2j.XmlValuesForTag(doc, c.Tag)
+		for _, v := range append(v1, v2...) {
+			scribble(v)
+		}
+		for _, opt := range []string{"attr-prefix", "lower"} {
+			if opt == "lower" {
+				mxj.CoerceKeysToLower(true)
+			} else {
+				mxj.SetAttrPrefix("@")
+			}
+			core2, err2 := mxj.NewMapXml(doc)
+			if err2 != nil {
+				return failf("decode-error", "%v", err2)
+			}
+			tag2, dpath2 := c.Tag, dpath
+			if opt == "lower" {
+				tag2, dpath2 = strings.ToLower(c.Tag), strings.ToLower(dpath)
+			}
+			cpv2, cpe2 := core2.ValuesForPath(dpath2)
+			if v, e := x2j.XmlValuesForPath(doc, dpath2); !eqErr(e, cpe2) || !compareVals(v, cpv2, true) {
+				return mism("x2j.XmlValuesForPath (second call, after the caller changed the first result and option "+opt+" was switched)", sortedCanon(v), sortedCanon(cpv2))
+			}
+			cv2, _ := core2.ValuesForKey(tag2)
+			if v, e := x2j.XmlValuesForTag(doc, tag2); e != nil || !compareVals(v, cv2, true) {
+				return mism("x2j.XmlValuesForTag (second call, option "+opt+")", sortedCanon(v), sortedCanon(cv2))
+			}
+			cp2 := core2.PathsForKey(tag2)
+			if p, e := x2j.XmlPathsForTag(doc, tag2); e != nil || !reflect.DeepEqual(strSet(p), strSet(cp2)) {
+				return mism("x2j.XmlPathsForTag (second call, option "+opt+")", strSet(p), strSet(cp2))
+			}
+			if l, e := x2j.XmlLeafNodes(doc); e != nil || !reflect.DeepEqual(leafKey(l), leafKey(core2.LeafNodes())) {
+				return mism("x2j.XmlLeafNodes (second call, option "+opt+")", leafKey(l), leafKey(core2.LeafNodes()))
+			}
+			if l, e := x2j.XmlLeafPath(doc); e != nil || !reflect.DeepEqual(strSet(l), strSet(core2.LeafPaths())) {
+				return mism("x2j.XmlLeafPath (second call, option "+opt+")", strSet(l), strSet(core2.LeafPaths()))
+			}
+			mxj.CoerceKeysToLower(false)
+			mxj.SetAttrPrefix("-")
+		}
+	}
 	pair := dpath + ":n1.n2"
 	if !strings.Contains(dpath, "*") {
 		nm, nerr := core.NewMap(pair)
